@@ -893,6 +893,72 @@ func c18(g *gen, ctxs []string, payload func() []byte) {
 			n++
 		}
 	}
+	// string classes: (seal context, unseal context) pairs, envelope ids, payload sizes
+	{
+		cf := config{nkeys: 1, threshold: 0, grants: []grantCfg{{1, []uint32{0}}}}
+		for _, pr := range stringPairs(c) {
+			b := g.build(cf, pr.a, []byte("p"))
+			if b.err != nil {
+				c.Failf("build-failed-on-context", map[string]any{"ctx": hx.Hex([]byte(pr.a))}, "BuildEnvelope failed: %v", b.err)
+				continue
+			}
+			o := unlock(pr.b, b.env, g.privs([]int{0}))
+			in := map[string]any{"kind": "ctxpair", "class": pr.class, "seal_ctx": hx.Hex([]byte(pr.a)), "unseal_ctx": hx.Hex([]byte(pr.b))}
+			switch {
+			case o.panicked:
+				c.Failf("unlock-panic", in, "panic: %v", o.pval)
+			case pr.a == pr.b && (o.err != nil || !o.res.GetSuccess() || !bytes.Equal(o.payload, b.payload)):
+				c.Failf("unseal-same-context-failed", in, "unsealing under the sealing context (%d bytes) failed: %v", len(pr.a), o.err)
+			case pr.a != pr.b && !errors.Is(o.err, envelope.ErrContextMismatch):
+				c.Failf("context-mismatch-not-reported", in, "unsealing with a different context (%s) returned err=%v instead of the context mismatch error", pr.class, o.err)
+			}
+			c.Class("ctxpair-" + pr.class)
+			if pr.coq && len(pr.a) <= 17 || pr.class == "shared-prefix" && len(pr.a) < 80 {
+				g.emit(b, tamper{}, []int{0}, pr.b, &o)
+				n++
+			} else {
+				c.Eval()
+			}
+			// the same pair as (configured envelope id, substituted envelope id)
+			if pr.a != "" && len(pr.a) <= 257 {
+				cfi := cf
+				cfi.id = pr.a
+				bi := g.build(cfi, ctxs[0], []byte("p"))
+				if bi.err == nil {
+					tm := tamper{kind: "envid", id: pr.b}
+					oi := unlock(bi.ctx, tm.apply(bi.env, bi.ctx, g.keys), g.privs([]int{0}))
+					g.checkTamper(bi, "id-substituted", oi, map[string]any{"class": pr.class, "id": hx.Hex([]byte(pr.a)), "new_id": hx.Hex([]byte(pr.b))})
+					if pr.a != pr.b && !oi.panicked && oi.err == nil && oi.res.GetSuccess() {
+						c.Failf("envelope-id-not-bound", map[string]any{"class": pr.class, "id": hx.Hex([]byte(pr.a)), "new_id": hx.Hex([]byte(pr.b))}, "envelope opened after its id was replaced by a different one")
+					}
+					c.Eval()
+					if len(pr.a) <= 17 && len(pr.b) <= 20 && pr.class != "equal" && n < c.N/2 {
+						g.emit(bi, tm, []int{0}, bi.ctx, &oi)
+						n++
+					}
+				}
+			}
+		}
+		for _, size := range strLengths {
+			if size == 0 {
+				continue
+			}
+			b := g.build(cf, ctxs[0], c.RandBytes(size))
+			if b.err != nil {
+				continue
+			}
+			o := unlock(b.ctx, b.env, g.privs([]int{0}))
+			if o.panicked || o.err != nil || !bytes.Equal(o.payload, b.payload) {
+				c.Failf("unseal-payload-size", map[string]any{"size": size}, "a %d-byte payload did not round trip: %v", size, o.err)
+			}
+			if size <= 129 {
+				g.emit(b, tamper{}, []int{0}, b.ctx, &o)
+				n++
+			} else {
+				c.Eval()
+			}
+		}
+	}
 	// regression: a keypair index equal to the number of envelope keypairs
 	for _, nk := range []int{1, 2} {
 		var all []uint32
